@@ -43,7 +43,7 @@ TREE = [('a', 'f', None), ('b', 'f', None), ('.h', 'f', None), ('d', 'd', None),
         ('d/e', 'd', None), ('d/e/ab', 'f', None), ('L', 'l', 'd'), ('A', 'f', None), ('c.d', 'f', None),
         ('D', 'd', None), ('D/a', 'f', None), ('D/B', 'f', None), ('d/A', 'f', None)]
 
-FN_SETS = [(), ('EXTMATCH',), ('EXTMATCH', 'DOTMATCH'), ('IGNORECASE',), ('EXTMATCH', 'FORCEWIN'), ('EXTMATCH', 'NEGATE'),
+FN_SETS = [(), ('FORCEWIN',), ('FORCEWIN', 'RAWCHARS'), ('FORCEUNIX', 'RAWCHARS'), ('EXTMATCH',), ('EXTMATCH', 'DOTMATCH'), ('IGNORECASE',), ('EXTMATCH', 'FORCEWIN'), ('EXTMATCH', 'NEGATE'),
            ('EXTMATCH', 'SPLIT'), ('EXTMATCH', 'BRACE'), ('EXTMATCH', 'CASE', 'IGNORECASE'), ('RAWCHARS',), ('EXTMATCH', 'NEGATE', 'NEGATEALL'),
            ('SPLIT',), ('BRACE',), ('SPLIT', 'BRACE'), ('EXTMATCH', 'SPLIT', 'BRACE'), ('SPLIT', 'NEGATE'), ('SPLIT', 'DOTMATCH')]
 GL_SETS = FN_SETS + [('EXTMATCH', 'GLOBSTAR'), ('EXTMATCH', 'GLOBSTAR', 'DOTMATCH'), ('MATCHBASE',), ('EXTMATCH', 'NODIR'),
@@ -66,7 +66,7 @@ def build_pool(seed, n_texts=640):
         seen.add(t)
         texts.append(t)
     fixed = ['*', '?', '*.d', 'a*', '[ab]', '!a', 'a|b', '{a,b}', '**', '**/a', '@(a|b)', '!(a)', '*(a)', '.*', '\\x61', 'd/*', '*/a', 'A', 'a',
-             'd/a', 'D/a', 'd/A', 'd/e/ab', 'D/*', 'd/e/*', '*/A', 'L/a', '+(a|b)', '*(a|b)b', '[a/|b]x', '[a|b]', '{a,b}|c', '@(a|{b,c})', 'a\\|b', '!(a|b)|a', 'd/@(a|e)', '~', '-a', '{a..c}']
+             'd/a', 'D/a', 'd/A', 'd/e/ab', 'D/*', 'd/e/*', '*/A', 'L/a', '[z-a]', '[!9-0]', 'x[!q-p]', '[!z-a]*', '\\x41', '\\103', '\\t', 'a\\/b', '\\N', '\\x5c*', '+(a|b)', '*(a|b)b', '[a/|b]x', '[a|b]', '{a,b}|c', '@(a|{b,c})', 'a\\|b', '!(a|b)|a', 'd/@(a|e)', '~', '-a', '{a..c}']
     texts = fixed + texts
     pool = []
     for i, t in enumerate(texts):
@@ -80,7 +80,7 @@ def build_pool(seed, n_texts=640):
             if heavy and rng.random() < 0.5:
                 pool.append({'api': ('glob.' if glob_mode else 'fnmatch.') + api, 'pat': t, 'flags': list(fs), 'bytes': True})
         if heavy and '\\' not in t and not t.startswith('/'):
-            pool.append({'api': 'glob.glob', 'pat': t, 'flags': list(rng.choice(GL_SETS[1:4] + GL_SETS[11:13])), 'bytes': rng.random() < 0.3})
+            pool.append({'api': 'glob.glob', 'pat': t, 'flags': list(rng.choice(GL_SETS[4:7] + GL_SETS[14:16])), 'bytes': rng.random() < 0.3})
             # the same text through the walker under a case-insensitive and a case-sensitive rule, str and bytes
             pool.append({'api': 'glob.glob', 'pat': t, 'flags': ['EXTMATCH', 'IGNORECASE'], 'bytes': False})
             pool.append({'api': 'glob.glob', 'pat': t, 'flags': ['EXTMATCH', 'CASE'], 'bytes': False})
@@ -116,7 +116,7 @@ def eval_call(c, root):
         pat = enc(c['pat'], b)
     except UnicodeEncodeError:
         return ['skip']
-    names = enc(NAMES, b)
+    names = enc(NAMES, b) if b else NAMES + ['\u2603', 'x\u2603', '\u0100']     # (str calls also see names outside Latin-1)
     flags = flags_of(c['flags'])
     try:
         if api.startswith('fnmatch.') or api.startswith('glob.') and api != 'glob.glob':
